@@ -11,7 +11,8 @@ from props import _design
 
 TITLE = "exhausted IterateSATGen = valid set"
 LEVEL = "proof"
-DOMAINS = ['Design']
+DOMAINS = ['Design', 'DocSem']
+EXTRA_PROPERTY_FILES = ["T2"]   # theorems about Design/DocSem.v, the Gallina rendering of the documented semantics
 STRAT = "IterateSATGen"
 
 
@@ -41,8 +42,37 @@ def still(p, strat):
     return bool(diff(r, strat))
 
 
+def docsem_layer(res, batch):
+    """The documented semantics exists twice: harness/docsem.py (Python, feeds the oracle) and
+    coq/theories/Design/DocSem.v (Gallina, extracted; the theorems of Properties/T2.v are about it).
+    They must agree on every program of this run (same normal form, same Unsupported verdicts)."""
+    import json
+    import docsem_corr
+    from common import Violation
+    progs = [r["program"] for r in batch]
+    stats = {}
+    try:
+        bad = docsem_corr.compare(progs, stats)
+    except Exception as e:  # noqa
+        res.violations.append(Violation("corr:T2-docsem", "docsem.py vs Design/DocSem.v: comparison failed: %r" % (e,),
+                                        {"layer": "T2-docsem-coq", "error": repr(e)}, failing_input=False))
+        return
+    badi = {i for i, _, _ in bad}
+    for i in range(len(progs)):
+        res.layer("T2-docsem-coq", i not in badi)
+    res.extra["docsem_py_vs_coq"] = {"%s/%s" % k: v for k, v in sorted(stats.items())}
+    if bad:
+        i, a, b = bad[0]
+        res.violations.append(Violation(
+            "corr:T2-docsem", "harness/docsem.py and Design/DocSem.v disagree on %d programs, e.g. python %s coq %s on %s" % (
+                len(bad), str(a)[:200], str(b)[:200], json.dumps(progs[i])[:600]),
+            {"layer": "T2-docsem-coq", "theorems": ["T2_*"], "program": progs[i], "python": str(a)[:2000], "coq": str(b)[:2000]},
+            failing_input=False))
+
+
 def run(ctx, res):
     batch = _design.load(ctx, res)
+    docsem_layer(res, batch)
     for r in _design.analysed(batch):
         _design.count(res, r)
         d = diff(r, STRAT)
